@@ -1,4 +1,4 @@
-import Req.Client.DecodeSettings
+import Req.Lemmas.DecodeSettings
 import Req.Props.C15
 /-!
 C15 — the decode settings over their whole life-cycle (setter calls in any order, `Clone` at
@@ -40,31 +40,6 @@ theorem toggle_keeps_filter (c : Config) (op : SetOp) (h : op.isToggle = true) :
 theorem set_keeps_switch (c : Config) (op : SetOp) (h : op.isToggle = false) :
     (SetOp.apply c op).disable = c.disable := by
   cases op <;> first | rfl | simp [SetOp.isToggle] at h
-
-private theorem map_modify {α β : Type} (f : α → β) (g : α → α) (g' : β → β)
-    (h : ∀ a, f (g a) = g' (f a)) (l : List α) (i : Nat) :
-    (l.modify i g).map f = (l.map f).modify i g' := by
-  induction l generalizing i with
-  | nil => simp
-  | cons a l ih =>
-    cases i with
-    | zero => simp [h]
-    | succ i => simp [ih]
-
-private theorem applyOps_snoc (c : Config) (l : List SetOp) (op : SetOp) :
-    applyOps c (l ++ [op]) = SetOp.apply (applyOps c l) op := by
-  simp [applyOps, List.foldl_append]
-
-private theorem fam_step (ls : List (List SetOp)) (op : FamOp) :
-    (FamOp.applyLin ls op).map (applyOps Config.default) =
-      FamOp.apply (ls.map (applyOps Config.default)) op := by
-  cases op with
-  | on i op =>
-    simp only [FamOp.applyLin, FamOp.apply]
-    exact map_modify _ _ _ (fun l => applyOps_snoc _ l op) ls i
-  | clone i =>
-    simp only [FamOp.applyLin, FamOp.apply, List.getElem?_map]
-    cases ls[i]? <;> simp
 
 /-- **runFam_eq_lineages**: every member of a family of clients has the configuration its own
 lineage of setter calls produces from the default — for every sequence of calls and clonings. -/
